@@ -8,8 +8,9 @@
    particular no genericity: repeated and zero eigenvalues are covered. *)
 From Coq Require Import String List Reals.
 Import ListNotations.
-From FV.C17 Require Import Model ProofsSym ProofsPoly ProofsEig ProofsAlign ProofsPlace ProofsBind.
-From FV.C17.gen Require Import TensorIdx.
+From Coq Require Import ZArith.
+From FV.C17 Require Import Model ProofsSym ProofsPoly ProofsEig ProofsAlign ProofsPlace ProofsBind AlignEntry ProofsEntry.
+From FV.C17.gen Require Import TensorIdx AlignCfg.
 Open Scope R_scope.
 
 (* ---- array <-> symmetric matrix ---- *)
@@ -159,6 +160,51 @@ Theorem C17_align_nnz_values :
       (NoDup (skeys M) -> forall key, sget ROps A key = sget ROps M key).
 Proof. exact align_nnz_values. Qed.
 
+(* ---- sparse alignment at the caller's level (AlignEntry.align_nnz_entry) ----
+   The matrices as the caller hands them over: format (CSR as stored - unsorted
+   indices and duplicated entries allowed - or COO), shape, stored (row, col, value)
+   entries.  Modelled: the shape check, the dispatch (`.tocsr()` when not all inputs
+   are CSR), the flat key (gen/AlignCfg.flat_key, TRANSLATED from the expression the
+   source hands to np.searchsorted), the union pattern in (row, col) order,
+   searchsorted on the flat keys and np.add.at.
+   FULL STATEMENT: for every non-empty list of matrices of one shape whose stored
+   positions lie inside the shape: the call succeeds, one CSR output per input, all
+   of that shape and on the same pattern U = the union of the stored positions in
+   row-major order, and every position (stored or not) carries the value of the input
+   matrix there (the sum of what it stores at that position). *)
+Theorem C17_align_nnz_entry_values :
+  forall (M0 : spm R) (Ms' : list (spm R)),
+  let Ms := M0 :: Ms' in
+  Forall wf_spm Ms -> (forall M, In M Ms -> sp_shape M = sp_shape M0) ->
+  let nr := fst (sp_shape M0) in let nc := snd (sp_shape M0) in
+  exists As U, align_nnz_entry ROps Ms = inl As /\ length As = length Ms /\
+    asc (map (fk nr nc) U) /\
+    (forall p, In p U <-> exists M, In M Ms /\ In p (positions (sp_ent M))) /\
+    forall i M A, nth_error Ms i = Some M -> nth_error As i = Some A ->
+      sp_fmt A = CSR /\ sp_shape A = sp_shape M0 /\ positions (sp_ent A) = U /\
+      forall p, eget ROps (sp_ent A) p = esum ROps (sp_ent M) p.
+Proof. exact align_nnz_entry_values. Qed.
+
+(* different shapes: ValueError, nothing is returned *)
+Theorem C17_align_nnz_entry_shape_mismatch :
+  forall (M0 : spm R) (Ms' : list (spm R)),
+  (exists M, In M (M0 :: Ms') /\ sp_shape M <> sp_shape M0) ->
+  align_nnz_entry ROps (M0 :: Ms') = inr EValue.
+Proof. exact align_nnz_entry_shape_mismatch. Qed.
+
+(* the translated key expression orders the stored positions of a matrix exactly as
+   (row, col) does (hence it is injective on them): what searchsorted relies on *)
+Theorem C17_align_nnz_flat_key_order :
+  forall nr nc p q, in_range nr nc p -> in_range nr nc q ->
+    Z.compare (fk nr nc p) (fk nr nc q) = rc_compare p q.
+Proof. exact fk_compare. Qed.
+
+(* the decisions of align_nnz the model relies on, as read from the source *)
+Theorem C17_align_nnz_decisions :
+  keys_are_int64 = true /\ union_indices_sorted = true /\ values_accumulated_with_add_at = true /\
+  shapes_checked = true /\ non_csr_inputs_converted_with_tocsr = true.
+Proof. repeat split; reflexivity. Qed.
+
 (* ---- no in-place write reaches a caller-owned array (translator's
         conservative alias summary; object identity itself is checked by the
         correspondence only) ---- *)
@@ -172,5 +218,9 @@ Proof. split; reflexivity. Qed.
 Example C17_align_premise_satisfiable :
   Forall swf [[(0%Z, 1); (2%Z, -3)]; [(1%Z, 5); (2%Z, 0)]].
 Proof. exact align_example. Qed.
+Example C17_align_entry_premise_satisfiable :
+  Forall wf_spm [mk_spm COO (2, 3)%Z [((1, 2)%Z, 1); ((0, 1)%Z, 5); ((1, 2)%Z, 3)];
+                 mk_spm CSR (2, 3)%Z [((0, 2)%Z, 7); ((0, 0)%Z, 2)]].
+Proof. exact wf_spm_example. Qed.
 Example C17_eigh_premise_satisfiable : eigh_ok (smat 1 0 0 2 0 3) ([1; 2; 3], I3).
 Proof. exact eigh_ok_diag. Qed.
